@@ -216,6 +216,7 @@ class Builder:
         self.shared_reads = []    # (location key, value Node, op, ast) reads of globals / shared objects
         self.default_cache = {}
         self.default_nodes = {}   # nid -> (FuncInfo, parameter name) of default-argument objects
+        self.view_mutated = set()   # nids of arrays mutated in place through a view (not modelled)
         self.mutations = []   # (kind, receiver Node, ast node, FuncInfo): in-place updates
         self.assign_log = []  # (FuncInfo, ast.Name target, Node) for every plain-name assignment
         self.opaque = {}      # function fullname -> symbol name (result is a named dimensionless constant)
@@ -1191,6 +1192,15 @@ class Builder:
             else:
                 new = self.mk('store', None, [base, idx, v], at=t)
                 self.mutations.append(('subscript store', base, t, self.frame.func))
+                # a store through a row / element view also changes the array the view was taken
+                # from; the builder does not model that aliasing: remember the underlying array
+                vb = base
+                through_iteration = False
+                while vb.kind in ('elem', 'sub') and vb.args:
+                    through_iteration = through_iteration or vb.kind == 'elem'
+                    vb = vb.args[0]
+                    if through_iteration:
+                        self.view_mutated.add(vb.nid)
             if base.kind in ('obj', 'module', 'class'):
                 return
             self.assign(t.value, new, rebinding=True)
